@@ -1,4 +1,5 @@
 """Module for `State` class."""
+import threading
 from typing import Dict, List, Optional, Union
 from uuid import UUID
 
@@ -55,6 +56,9 @@ class State:
         self.public_key = self.private_key.public_key()
         self.uuid_to_bytes: Dict[UUID, bytes] = {}
         self.accessories_hash = None
+        # Held by every change of the persisted attributes and by the save while it
+        # reads them, so that a save never stores a mix of two states.
+        self.lock = threading.RLock()
 
     @property
     def address(self) -> str:
@@ -88,9 +92,10 @@ class State:
         client_username_str = client_username_bytes.decode("utf-8")
         client_uuid = UUID(client_username_str)
         permissions = ord(perms)
-        self.uuid_to_bytes[client_uuid] = client_username_bytes
-        self.paired_clients[client_uuid] = client_public
-        self.client_properties[client_uuid] = {CLIENT_PROP_PERMS: permissions}
+        with self.lock:
+            self.uuid_to_bytes[client_uuid] = client_username_bytes
+            self.paired_clients[client_uuid] = client_public
+            self.client_properties[client_uuid] = {CLIENT_PROP_PERMS: permissions}
 
     def remove_paired_client(self, client_uuid: UUID) -> None:
         """Remove a given client from dictionary of paired clients.
@@ -98,25 +103,30 @@ class State:
         :param client_uuid: The client's UUID.
         :type client_uuid: uuid.UUID
         """
-        self.paired_clients.pop(client_uuid)
-        self.client_properties.pop(client_uuid)
-        self.uuid_to_bytes.pop(client_uuid, None)
+        with self.lock:
+            self.paired_clients.pop(client_uuid)
+            self.client_properties.pop(client_uuid)
+            self.uuid_to_bytes.pop(client_uuid, None)
 
-        # All pairings must be removed when the last admin is removed
-        if not any(self.is_admin(client_uuid) for client_uuid in self.paired_clients):
-            self.paired_clients.clear()
-            self.client_properties.clear()
+            # All pairings must be removed when the last admin is removed
+            if not any(
+                self.is_admin(client_uuid) for client_uuid in self.paired_clients
+            ):
+                self.paired_clients.clear()
+                self.client_properties.clear()
 
     def set_accessories_hash(self, accessories_hash):
         """Set the accessories hash and increment the config version if needed."""
-        if self.accessories_hash == accessories_hash:
-            return False
-        self.accessories_hash = accessories_hash
-        self.increment_config_version()
-        return True
+        with self.lock:
+            if self.accessories_hash == accessories_hash:
+                return False
+            self.accessories_hash = accessories_hash
+            self.increment_config_version()
+            return True
 
     def increment_config_version(self):
         """Increment the config version."""
-        self.config_version += 1
-        if self.config_version > MAX_CONFIG_VERSION:
-            self.config_version = 1
+        with self.lock:
+            self.config_version += 1
+            if self.config_version > MAX_CONFIG_VERSION:
+                self.config_version = 1
